@@ -210,7 +210,9 @@ class AddSubtractComp(ExplicitComponent):
                                                     f'equation but had different units '
                                                     f'({prev_units} vs. {units}.')
 
-            sf = scaling_factors[i]
+            # an input name may be repeated (it is then counted once per occurrence)
+            sf = sum(s for name, s in zip(input_names, scaling_factors)
+                     if name == input_name)
             self.declare_partials([output_name], [input_name],
                                   val=sf * sp.eye(vec_size * length, format='csc'))
             self._input_names[input_name] = {'vec_size': vec_size, 'length': length,
